@@ -344,6 +344,11 @@ impl Exec {
                     guarded(|| *a.gradient_mut() = None)?;
                 }
             }
+            Step::Copy { h } => {
+                let a = self.get(*h);
+                let c = Array::from((a.dimensions().to_vec(), a.values().to_vec()));
+                self.push(Some(c));
+            }
             Step::ProbeSole { h } => {
                 let a = self.slots[*h].take().expect("dead slot");
                 let dims = a.dimensions().to_vec();
